@@ -151,11 +151,16 @@ class InterestTreeNode:
         self.pending_list.append(
             PendingIntEntry(future, deadline, param.can_be_prefix, param.must_be_fresh, validator, implicit_sha256))
 
-    def nack_interest(self, nack_reason: int) -> bool:
+    def nack_interest(self, nack_reason: int, implicit_sha256: enc.BinaryStr = b'') -> bool:
+        # A Nack only concerns the Interests it names, including the implicit digest component
+        remaining_entries = []
         for entry in self.pending_list:
-            if not entry.future.done():
+            if entry.implicit_sha256 != implicit_sha256:
+                remaining_entries.append(entry)
+            elif not entry.future.done():
                 entry.future.set_exception(types.InterestNack(nack_reason))
-        return True
+        self.pending_list = remaining_entries
+        return not remaining_entries
 
     def satisfy(self, data: types.DataTuple, is_prefix: bool) -> bool:
         unsatisfied_entries = []
@@ -594,13 +599,20 @@ class NDNApp:
             del self._pit[prefix]
 
     def _on_nack(self, name: enc.FormalName, nack_reason: int):
+        # Interests with implicit SHA256 are stored under the name without the digest component
+        if name and enc.Component.get_type(name[-1]) == enc.Component.TYPE_IMPLICIT_SHA256:
+            node_name = name[:-1]
+            implicit_sha256 = enc.Component.get_value(name[-1])
+        else:
+            node_name = name
+            implicit_sha256 = b''
         try:
-            node = self._pit[name]
+            node = self._pit[node_name]
         except KeyError:
             node = None
         if node:
-            if node.nack_interest(nack_reason):
-                del self._pit[name]
+            if node.nack_interest(nack_reason, implicit_sha256):
+                del self._pit[node_name]
 
     def express(self, name: enc.NonStrictName, validator: Validator,
                 app_param: enc.BinaryStr | None = None,
